@@ -101,6 +101,9 @@ func (i *Interceptors) NewSegment(val string) (*Segment, error) {
 	seg.Name = val[start+1 : separator]
 	seg.cleanName()
 	seg.Suffix = val[end+1:]
+	if _, err := regexp.Compile(seg.rule); err != nil { // 规则本身必须是合法的正则，比如 a)|(b 会使捕获组不参与匹配。
+		return nil, err
+	}
 	name := ":"
 	if !seg.ignoreName {
 		name = "P<" + seg.Name + ">"
